@@ -369,7 +369,8 @@ class Gen:
                 return ['fn', 'string$', [self.pos_lit(0, 3), ['lit', '$', r.choice(('x', 'ab'))]]]
             return ['fn', 'string$', [self.pos_lit(0, 3), ['lit', '%', r.randint(65, 90)]]]
         if k == 'chr$':
-            return ['fn', 'chr$', [['lit', '%', r.randint(48, 122)]]]
+            # (also character codes above 127: they order and convert by code page 437)
+            return ['fn', 'chr$', [['lit', '%', r.choice((r.randint(48, 122), r.randint(48, 122), r.randint(128, 255), r.choice((128, 129, 130, 255))))]]]
         return ['fn', 'str$', [self.num_expr(sc, 0, 1)]]
 
     def cond(self, sc, depth):
@@ -1360,6 +1361,23 @@ class Gen:
             if c is not None:
                 at = len(body) - (1 if p['kind'] == 'function' else 0)
                 body.insert(max(at, 0), c)
+        if self.p['family'] == 'any' and self.p['gosub'] and r.random() < 0.3:
+            # a GOSUB subroutine local to the procedure; it ends with RETURN,
+            # or leaves the whole procedure from inside the subroutine
+            lab = self.fresh('lg')
+            m = self.next_marker()
+            pr = {'k': 'print', 'marker': m, 'items': [[['lit', '$', f'<{m}>'], '']]}
+            leave = {'k': 'exit', 'what': 'sub' if p['kind'] == 'sub' else 'function'}
+            tail = [{'k': 'gosub', 'label': lab}]
+            if r.random() < 0.5:
+                tail.append({'k': 'gosub', 'label': lab})
+            tail += [dict(leave), {'k': 'label', 'name': lab}, pr,
+                     dict(leave) if r.random() < 0.5 else {'k': 'return'}]
+            if p['kind'] == 'function':
+                # keep the assignment of the result in front
+                body = body + tail
+            else:
+                body = body + tail
         self.stmt_budget = save
         p['body'] = body
 
@@ -1659,6 +1677,16 @@ class Gen:
             sc.gosubs = subs[:i]     # a routine may only call earlier ones
             self.stmt_budget = r.randint(1, 3)
             main.append({'k': 'label', 'name': lab})
+            if r.random() < 0.25:
+                # a routine that GOSUBs itself (two levels deep, the first
+                # time it is entered)
+                gq = self.fresh('gq', '%')
+                sc.vars[gq] = '%'
+                sc.frozen.add(gq)
+                main.append({'k': 'let', 'lv': ['var', gq],
+                             'e': ['bin', '+', ['var', gq], ['lit', '%', 1]]})
+                main.append({'k': 'ifl', 'cond': ['bin', '<', ['var', gq], ['lit', '%', 3]],
+                             'then': [{'k': 'gosub', 'label': lab}], 'els': None})
             main += self.block(sc, r.randint(1, 3), 1)
             if i == len(subs) - 1 and not hl and not self.data_items and r.random() < 0.15:
                 # the last routine runs into the end of the program instead of
